@@ -213,7 +213,7 @@ def run_case(case):
     from bioscrape.simulator import ArrayDelayQueue as ADQ
     import bioscrape.random as brandom
     C = {"histories": 0, "nontrivial_histories": 0, "reads_compared": 0, "ops": 0, "partitions": 0}
-    viol = []
+    viol = util.ViolList()
     samples = []
 
     def record(run, err, ops, meta):
